@@ -28,6 +28,8 @@ type c19Case struct {
 	Refuse  int    `json:"refuse"`   // bit i set = handler i (in registration order) refuses
 	MsgType string `json:"msg_type"` // "0" or "V"
 	Inbound bool   `json:"inbound"`
+	Mutate  bool   `json:"mutate,omitempty"` // every outgoing handler re-stamps SendingTime before looking at the bytes
+	Late    bool   `json:"late,omitempty"`   // type-specific handlers are registered only after a first message of that type has passed
 }
 
 // failingStore wraps the memory store and logs every Save.
@@ -83,6 +85,21 @@ func c19Run(c c19Case) (string, string) {
 		w.h.HandleIncoming("Q", func(data []byte) bool { log = append(log, "other-type"); return true })
 		w.take()
 		w.in(w.msg("D", "11=x"))
+		if c.Late {
+			// a second round of handlers registered after a D message has already passed
+			n0 := len(c.Order)
+			for i, k := range c.Order {
+				name := fmt.Sprintf("%c%d", k, n0+i)
+				typ := simplefixgo.AllMsgTypes
+				if k == 't' {
+					typ = "D"
+				}
+				w.h.HandleIncoming(typ, func(data []byte) bool { log = append(log, name); return true })
+			}
+			log = log[:0]
+			w.in(w.msg("D", "11=y"))
+			c.Order = c.Order + c.Order
+		}
 		var exp []string
 		for i, k := range c.Order {
 			if k == 'A' {
@@ -100,8 +117,7 @@ func c19Run(c c19Case) (string, string) {
 		return "", ""
 	}
 	var seen [][]byte // bytes each handler saw for the current send
-	for i, k := range c.Order {
-		i := i
+	register := func(i int, k rune) {
 		name := fmt.Sprintf("%c%d", k, i)
 		typ := simplefixgo.AllMsgTypes
 		if k == 't' {
@@ -109,11 +125,32 @@ func c19Run(c c19Case) (string, string) {
 		}
 		w.h.HandleOutgoing(typ, func(msg simplefixgo.SendingMessage) bool {
 			log = append(log, name)
+			if c.Mutate {
+				msg.HeaderBuilder().SetFieldSendingTime(fmt.Sprintf("20240101-00:00:%02d.000", 10+i))
+			}
 			b, _ := msg.ToBytes()
 			seen = append(seen, append([]byte{}, b...))
-			vsched.Yield()
+			vsched.Preempt()
 			return c.Refuse&(1<<i) == 0
 		})
+	}
+	for i, k := range c.Order {
+		if c.Late && k == 't' {
+			continue
+		}
+		register(i, k)
+	}
+	if c.Late {
+		// a first message of the type passes while no type-specific handler exists; they are registered afterwards
+		if err := w.s.Send(mk()); err != nil && c.Refuse == 0 {
+			return "send-error", err.Error()
+		}
+		vsched.Settle()
+		for i, k := range c.Order {
+			if k == 't' {
+				register(i, k)
+			}
+		}
 	}
 	// a handler for another type must never run
 	other := "V"
@@ -124,6 +161,7 @@ func c19Run(c c19Case) (string, string) {
 	w.take()
 	fs.armed = true
 	firstRefuser := -1
+	log = log[:0]
 	var expOrder []string
 	for i, k := range c.Order {
 		if k == 'A' {
@@ -189,10 +227,19 @@ func c19Run(c c19Case) (string, string) {
 		if seqOf(outs[0].Msg) != seq {
 			return "saved-under-other-number", fmt.Sprintf("send %d: saved as %d, transmitted %s", send, seq, show(outs[0].Msg))
 		}
-		if !bytes.Equal(fs.saved[seq], outs[0].Msg) {
+		if !c.Mutate && !bytes.Equal(fs.saved[seq], outs[0].Msg) {
 			return "stored-bytes-differ", fmt.Sprintf("send %d: stored %s transmitted %s", send, show(fs.saved[seq]), show(outs[0].Msg))
 		}
+		// what the store holds under that number now is what went out
+		if ms, err := st.Messages(fix.StorageID{Side: fix.Outgoing}, seq, seq); err != nil || len(ms) != 1 {
+			return "not-in-store", fmt.Sprintf("send %d: Messages(%d,%d) = %d messages, %v", send, seq, seq, len(ms), err)
+		} else if b, _ := ms[0].ToBytes(); !bytes.Equal(b, outs[0].Msg) {
+			return "stored-message-differs-from-transmitted", fmt.Sprintf("send %d: store %s transmitted %s", send, show(b), show(outs[0].Msg))
+		}
 		for hi, b := range seen {
+			if c.Mutate && hi != len(seen)-1 {
+				continue // a later handler re-stamped the message: only the last view must equal the wire
+			}
 			if !bytes.Equal(b, outs[0].Msg) {
 				return "handler-saw-other-bytes", fmt.Sprintf("send %d handler %d saw %s transmitted %s", send, hi, show(b), show(outs[0].Msg))
 			}
@@ -213,7 +260,7 @@ func runC19(R *vlib.Out) {
 	}
 	maxA, maxT := 2, 2
 	if *vlib.Tier == "thorough" {
-		maxA, maxT = 3, 3
+		maxA, maxT = 4, 4
 	}
 	R.Bounds["max_all_types_handlers"] = maxA
 	R.Bounds["max_type_specific_handlers"] = maxT
@@ -255,7 +302,7 @@ func runC19(R *vlib.Out) {
 	}
 	for _, role := range []string{"acc", "ini"} {
 		for _, o := range orders {
-			if !try(c19Case{Role: role, Order: o, Inbound: true}) {
+			if !try(c19Case{Role: role, Order: o, Inbound: true}) || !try(c19Case{Role: role, Order: o, Inbound: true, Late: true}) {
 				return
 			}
 			for _, mt := range []string{"0", "V"} {
@@ -263,6 +310,13 @@ func runC19(R *vlib.Out) {
 					for refuse := 0; refuse < 1<<len(o); refuse++ {
 						if !try(c19Case{Role: role, FailAt: failAt, Order: o, Refuse: refuse, MsgType: mt}) {
 							return
+						}
+						if failAt == 0 && len(o) > 0 {
+							if !try(c19Case{Role: role, Order: o, Refuse: refuse, MsgType: mt, Mutate: true}) ||
+								!try(c19Case{Role: role, Order: o, Refuse: refuse, MsgType: mt, Late: true}) ||
+								!try(c19Case{Role: role, Order: o, Refuse: refuse, MsgType: mt, Late: true, Mutate: true}) {
+								return
+							}
 						}
 					}
 				}
